@@ -232,12 +232,11 @@ SPEC_STEPS = [
 def judge_live_history(seq):
     """ONE Spectra object on one live configuration; between calls the spectrum is replaced or one of ITS fields is set
     in place; every call must return exactly what a fresh sampler on a fresh configuration with the values in force
-    returns (energies, normalisation, weight sum), for the same owned uniform numbers"""
+    returns (energies, normalisation, weight sum), for the same owned uniform numbers. Two passes: the expected values
+    of every step are computed first, then the history runs with NO other production call in between (a module-level
+    memo would be refreshed by an interleaved reference call)."""
     from nuspacesim.simulation.spectra.spectra import Spectra
 
-    cur = {"type": "power", "index": 2.2, "lo": 6.5, "hi": 11.5}
-    cfg = make_config(cur)
-    sp = Spectra(cfg)
     tt = np.array([0.0, 0.25, 0.5, 0.75, 1.0])
 
     def obs(s):
@@ -245,27 +244,43 @@ def judge_live_history(seq):
             le, nrm, ws = s(len(tt))
         return np.asarray(le, dtype=float).tobytes(), float(nrm), float(ws)
 
+    # pass 1: the configurations in force after every step, and what a fresh sampler returns for each
+    cur = {"type": "power", "index": 2.2, "lo": 6.5, "hi": 11.5}
+    states = [dict(cur)]
+    applied = []
+    for si in seq:
+        op = SPEC_STEPS[si]
+        if op[0] == "replace":
+            cur = dict(op[1])
+            applied.append(op)
+        else:
+            _, k, v = op
+            if (k == "logE") != (cur["type"] == "mono") or (k in ("lo", "hi") and not ({**cur, k: v}["lo"] < {**cur, k: v}["hi"])):
+                applied.append(None)  # the field does not exist on the spectrum in force / would invert the bounds
+            else:
+                cur[k] = v
+                applied.append(op)
+        states.append(dict(cur))
+    wants = [obs(Spectra(make_config(c))) for c in states]
+    # pass 2: the live history, uninterrupted
+    cfg = make_config(states[0])
+    sp = Spectra(cfg)
     for step in range(len(seq) + 1):
         if step:
-            op = SPEC_STEPS[seq[step - 1]]
+            op = applied[step - 1]
+            if op is None:
+                continue
             if op[0] == "replace":
-                cur = dict(op[1])
-                cfg.simulation.spectrum = make_config(cur).simulation.spectrum
+                cfg.simulation.spectrum = make_config(dict(op[1])).simulation.spectrum
             else:
                 _, k, v = op
-                if (k == "logE") != (cur["type"] == "mono"):
-                    continue  # the field does not exist on the spectrum in force: not a step of this history
-                if k in ("lo", "hi") and not ({**cur, k: v}["lo"] < {**cur, k: v}["hi"]):
-                    continue
-                cur[k] = v
                 setattr(cfg.simulation.spectrum, {"index": "index", "lo": "lower_bound", "hi": "upper_bound", "logE": "log_nu_energy"}[k], v)
         try:
             got = obs(sp)
         except Exception as ex:
             return [("live_history_no_exception", f"after {[SPEC_STEPS[i][1:] for i in seq[:step]]}", f"{type(ex).__name__}: {str(ex)[:80]}")]
-        want = obs(Spectra(make_config(cur)))
-        if got != want:
-            return [("follows_configured_spectrum", f"after {[SPEC_STEPS[i][1:] for i in seq[:step]]}: the result of a fresh sampler for {cur}", "differs" if got[0] != want[0] else f"norm/weights {got[1:]} vs {want[1:]}")]
+        if got != wants[step]:
+            return [("follows_configured_spectrum", f"after {[SPEC_STEPS[i][1:] for i in seq[:step]]}: the result of a fresh sampler for {states[step]}", "differs" if got[0] != wants[step][0] else f"norm/weights {got[1:]} vs {wants[step][1:]}")]
     return []
 
 
